@@ -242,7 +242,24 @@ func TestPerValueCap(t *testing.T) {
 			}
 		}
 		n := rapid.IntRange(1, 40).Draw(t, "n")
+		added := 0
 		for i := 0; i < n; i++ {
+			if len(lives) == 0 && len(ms) > 0 && added < 2 && rapid.IntRange(0, 7).Draw(t, "addRule") == 0 {
+				// nothing is in flight: a further rule is added for a resource that has one (same selector kind and capacity, so the
+				// loader may hand statistics around), every present rule is listed unchanged; the new rule counts from zero
+				old := ms[rapid.IntRange(0, len(ms)-1).Draw(t, "like")]
+				nr := cloneRule(old.r)
+				added++
+				nr.ID = fmt.Sprintf("%s-added%d", old.r.Resource, added)
+				nr.Threshold = int64(rapid.IntRange(minT, 3).Draw(t, "T"))
+				if old.r.ParamKey == "" && rapid.Bool().Draw(t, "otherPosition") {
+					nr.ParamIndex = rapid.SampledFrom([]int{0, 1, -1, -2}).Draw(t, "idx")
+				}
+				ms = append(ms, &mrule{nr, map[interface{}]int64{}})
+				load(t, ms)
+				c.Op("rule %s added (res=%s idx=%d key=%q T=%d) with nothing in flight", nr.ID, nr.Resource, nr.ParamIndex, nr.ParamKey, nr.Threshold)
+				c.Class("rule-added-by-a-reload-at-quiescence")
+			}
 			if rapid.IntRange(0, 4).Draw(t, "op") < 3 {
 				res := rapid.SampledFrom([]string{"a", "b"}).Draw(t, "res")
 				var args []interface{}
